@@ -3620,3 +3620,121 @@ func (r *Report) ConstNonNegative(key, pkgRel, name string) {
 		r.Bad(key, d, "-", v.String())
 	}
 }
+
+// VarintChain: in fn, successive binary.Varint reads of one buffer form a chain: the k-th read starts at the sum of
+// the lengths of reads 0..k-1, each length exactly once (a repeated or skipped length mis-parses as soon as two fields
+// have different widths).
+func (r *Report) VarintChain(key, fnKey string, minReads int) {
+	w := r.W
+	fn := w.Fn(fnKey)
+	d := fmt.Sprintf("in %s the k-th binary.Varint read starts at the sum of the lengths of all previous reads", fnKey)
+	k := key + "|" + fnKey
+	if fn == nil {
+		r.Unres(k, d, "function not found")
+		return
+	}
+	w.FuncsAnalysed[fn] = true
+	var reads []*ssa.Call
+	for _, b := range fn.Blocks {
+		for _, in := range b.Instrs {
+			if c, ok := in.(*ssa.Call); ok && CalleeName(&c.Call) == "encoding/binary.Varint" {
+				reads = append(reads, c)
+			}
+		}
+	}
+	if len(reads) < minReads {
+		r.Unres(k, d, fmt.Sprintf("%d varint reads, expected >= %d", len(reads), minReads))
+		return
+	}
+	lenOf := func(c *ssa.Call) ssa.Value {
+		if c.Referrers() == nil {
+			return nil
+		}
+		for _, ref := range *c.Referrers() {
+			if ex, ok := ref.(*ssa.Extract); ok && ex.Index == 1 {
+				return ex
+			}
+		}
+		return nil
+	}
+	// group by block (each loop iteration / function body is one chain)
+	byBlock := map[*ssa.BasicBlock][]*ssa.Call{}
+	for _, c := range reads {
+		byBlock[c.Block()] = append(byBlock[c.Block()], c)
+	}
+	for _, chain := range byBlock {
+		var lens []ssa.Value
+		for i, c := range chain {
+			arg := c.Call.Args[0]
+			var low ssa.Value
+			if sl, ok := arg.(*ssa.Slice); ok {
+				low = sl.Low
+			}
+			// collect the multiset of length values summed in `low`
+			got := map[ssa.Value]int{}
+			okShape := true
+			var walk func(v ssa.Value)
+			walk = func(v ssa.Value) {
+				if v == nil {
+					return
+				}
+				switch x := v.(type) {
+				case *ssa.BinOp:
+					if x.Op != token.ADD {
+						okShape = false
+						return
+					}
+					walk(x.X)
+					walk(x.Y)
+				default:
+					got[v]++
+				}
+			}
+			walk(low)
+			bad := !okShape || len(got) != len(lens)
+			for _, l := range lens {
+				if got[l] != 1 {
+					bad = true
+				}
+			}
+			if bad {
+				r.Bad(k, d, w.posOr(c.Pos(), fn), fmt.Sprintf("read #%d starts at %s, not at the sum of the %d previous lengths", i, clip(Render(low).String(), 120), len(lens)))
+				return
+			}
+			if l := lenOf(c); l != nil {
+				lens = append(lens, l)
+			} else if i != len(chain)-1 {
+				r.Bad(k, d, w.posOr(c.Pos(), fn), fmt.Sprintf("length of read #%d is discarded but a later read depends on it", i))
+				return
+			}
+		}
+	}
+	r.OK(k, d, w.FnPos(fn), fmt.Sprintf("%d reads in %d chain(s)", len(reads), len(byBlock)))
+}
+
+// VarintChainPkg: VarintChain over every function of a package that performs at least two varint reads.
+func (r *Report) VarintChainPkg(key, pkgPrefix string, minTotalReads int) {
+	w := r.W
+	total := 0
+	for _, k := range sortedKeys(w.Funcs) {
+		fn := w.Funcs[k]
+		if !strings.HasPrefix(k, pkgPrefix) || len(fn.Blocks) == 0 {
+			continue
+		}
+		n := 0
+		for _, b := range fn.Blocks {
+			for _, in := range b.Instrs {
+				if c, ok := in.(*ssa.Call); ok && CalleeName(&c.Call) == "encoding/binary.Varint" {
+					n++
+				}
+			}
+		}
+		if n >= 2 {
+			total += n
+			r.VarintChain(key, k, 2)
+		}
+	}
+	if total < minTotalReads {
+		r.Unres(key+"|total", "the proof package parses IAVL node headers with chained varint reads", fmt.Sprintf("%d varint reads found in %s, expected >= %d", total, pkgPrefix, minTotalReads))
+	}
+}
